@@ -1,6 +1,8 @@
 package gateway
 
 import (
+	"strings"
+
 	hydrapb "github.com/hydraide/hydraide/sdk/go/hydraidego/v3/hydraidepbgo"
 )
 
@@ -149,6 +151,17 @@ func indexableHint(f *hydrapb.TreasureFilter) (BucketHint, bool) {
 	if path == "" {
 		return BucketHint{}, false
 	}
+	// The bucket indexes plain dotted body fields only. The pseudo field #len and the
+	// [*] wildcard are evaluated by the scan route's extractor and mean something else
+	// there than a literal map key, so such a leg must stay on the scan route.
+	if hasSpecialPathSyntax(path) {
+		return BucketHint{}, false
+	}
+	// A labelled leg has to be evaluated per row so that its label shows up in
+	// MatchedLabels; serving it from the bucket would drop the label.
+	if f.GetLabel() != "" {
+		return BucketHint{}, false
+	}
 	switch f.GetOperator() {
 	case hydrapb.Relational_EQUAL:
 		v, ok := compareValueToAny(f)
@@ -185,6 +198,17 @@ func indexableHint(f *hydrapb.TreasureFilter) (BucketHint, bool) {
 		return BucketHint{FieldPath: path, Op: HintIn, Values: vals}, true
 	}
 	return BucketHint{}, false
+}
+
+// hasSpecialPathSyntax reports whether a body field path uses a segment the scan
+// route's extractFieldByPath treats specially ("#len", "Field[*]").
+func hasSpecialPathSyntax(path string) bool {
+	for _, part := range strings.Split(path, ".") {
+		if part == "#len" || strings.HasSuffix(part, "[*]") {
+			return true
+		}
+	}
+	return false
 }
 
 // compareValueToAny pulls the set field of the CompareValue oneof and
